@@ -57,7 +57,8 @@ type PtrV struct {
 	Ref   string // Int term, 0 = nil
 	Named *types.Named
 	// pointer to a non-struct location (e.g. *[]T inside list wrappers): Cell names a heap key
-	Cell string
+	Cell  string
+	CellT types.Type // type of the location for "cell:" pointers (pointer to a slice or map variable)
 }
 
 func (p PtrV) Struct() *types.Struct {
@@ -148,6 +149,8 @@ type Ctx struct {
 	callHook       func(c *Ctx, x *ast.CallExpr, st *State) ([]Val, bool)
 	stmtHook       func(c *Ctx, s ast.Stmt, st *State) (Flow, bool)
 	noSafeNil      bool
+	assertHook     func(v Val, target types.Type, st *State) (Val, string, bool) // family engines: type assertions on modelled library values
+	bidMemo        map[string]string // ids handed out for byte-sequence values, by syntactic identity of the value
 	mapEvents      []mapEvent
 	mapMakes       []string // ids of maps created by make in this unit
 	onCase         func(c *Ctx, cc *ast.CaseClause, st *State)
@@ -273,11 +276,11 @@ func (c *Ctx) mergeVal(g string, a, b Val) Val {
 		if nm == nil {
 			nm = y.Named
 		}
-		cell := x.Cell
+		cell, cellT := x.Cell, x.CellT
 		if cell == "" {
-			cell = y.Cell
+			cell, cellT = y.Cell, y.CellT
 		}
-		return PtrV{Ref: c.ite(g, x.Ref, y.Ref, "Int"), Named: nm, Cell: cell}
+		return PtrV{Ref: c.ite(g, x.Ref, y.Ref, "Int"), Named: nm, Cell: cell, CellT: cellT}
 	case IfaceV:
 		y, ok := b.(IfaceV)
 		if !ok {
@@ -1139,6 +1142,9 @@ func (c *Ctx) sliceExpr(x *ast.SliceExpr, st *State) Val {
 
 func (c *Ctx) compositeLit(x *ast.CompositeLit, st *State) Val {
 	t := c.info.TypeOf(x)
+	if nt, ok := t.(*types.Named); ok && len(x.Elts) == 0 && nt.Obj().Pkg() != nil && nt.Obj().Pkg().Path() == protoreflectPkg && nt.Obj().Name() == "Value" {
+		return RVal{Kind: "Invalid", Id: "invalid"} // protoreflect.Value{}: the invalid value
+	}
 	switch u := t.Underlying().(type) {
 	case *types.Struct:
 		sv := c.zeroValue(t).(StructV)
@@ -1189,8 +1195,16 @@ func (c *Ctx) typeAssert(x *ast.TypeAssertExpr, st *State, commaOk bool) []Val {
 	target := c.info.TypeOf(x.Type)
 	var okT string
 	var res Val
+	if c.assertHook != nil {
+		if r, ok, handled := c.assertHook(v, target, st); handled {
+			res, okT = r, ok
+		}
+	}
 	switch iv := v.(type) {
 	case IfaceV:
+		if okT != "" {
+			break
+		}
 		if pt, isPtr := target.Underlying().(*types.Pointer); isPtr {
 			if nt, isNamed := pt.Elem().(*types.Named); isNamed {
 				k := c.typeTag(nt)
